@@ -101,6 +101,8 @@ def canonical(graph, root):
     for n in order:
         nd = graph[n - 1]
         g.append({'k': nd['k'], 'c': [ren[r] if r > 0 else r for r in nd['c']], 'tc': nd.get('tc', 0)})
+        if nd['k'] == 'obj':
+            g[-1]['acc'] = bool(nd.get('acc'))
     return g, 1
 
 
@@ -210,7 +212,7 @@ def tokens(term):
             for _, x in t[3]:
                 go(x)
         elif k == 'rec':
-            out.append(['rec', t[1], t[2]])
+            out.append(['rec', 'obj' if t[1] in ('U', 'V') else t[1], t[2]])
         elif k == 'name' and t[1].startswith('U_n'):
             out.append(['repr', int(t[1][3:])])
         else:
@@ -319,6 +321,13 @@ def graph_universe(chk):
             add(random_graph(rng, 4))
     for _ in range(300 if q else 5000):
         add(random_graph(rng, rng.randint(4, 10)))
+    # cycles that run through instances of user types (printed with pretty_call) as well
+    for _ in range(300 if q else 5000):
+        g = random_graph(rng, rng.randint(2, 7), kinds=('list', 'dict', 'obj', 'obj', 'tuple'))
+        for nd in g:
+            if nd['k'] == 'obj':
+                nd['acc'] = rng.random() < 0.5
+        add(g)
     return out
 
 
@@ -405,6 +414,7 @@ def check_c13(chk, args):
             chk.nontrivial(repr(g))
     nv, nd, st = run_cases(chk, cases, meta, 'C13')
     chk.cov['evaluations'] = len(cases) * 2
+    stdlib_cycles(chk)
     chk.cov['traces_validated_against_impl'] = len(cases)
     chk.cov['rule'] = ('rooted directed graphs of list / dict / tuple nodes with 0-2 child slots (node or int leaf): all '
                        'with <= 2 nodes, all/sampled with 3 list-or-dict nodes, random ones up to 10 nodes; unreachable '
@@ -414,6 +424,75 @@ def check_c13(chk, args):
     for c in cases[:: max(1, len(cases) // 4)][:4]:
         chk.sample({'graph': meta[c['id']]['graph'], 'output': meta[c['id']]['out'][:200]})
     chk.stage('tlc.validate', graphs=len(cases), rejected=nv, drift=nd, states=st['distinct'])
+
+
+def stdlib_cycles(chk):
+    """Cycles that run through the containers with bundled printers (deque, OrderedDict, defaultdict, Counter,
+    ChainMap, SimpleNamespace, a list subclass, a dict subclass): printing terminates, the marker names the type
+    and identity of the container reached again, it appears exactly where the cycle closes (the shared acyclic
+    part is printed in full each time), and a second print gives the same text."""
+    import collections
+    import re
+    import types
+
+    class L(list):
+        pass
+
+    class D(dict):
+        pass
+    makers = {
+        'deque': (lambda: collections.deque([1]), lambda c, x: c.append(x)),
+        'OrderedDict': (lambda: collections.OrderedDict(a=1), lambda c, x: c.__setitem__('s', x)),
+        'defaultdict': (lambda: collections.defaultdict(list, a=1), lambda c, x: c.__setitem__('s', x)),
+        'Counter': (lambda: collections.Counter(a=1), lambda c, x: c.__setitem__('s', x)),
+        'ChainMap': (lambda: collections.ChainMap({'a': 1}), lambda c, x: c.__setitem__('s', x)),
+        'SimpleNamespace': (lambda: types.SimpleNamespace(a=1), lambda c, x: setattr(c, 's', x)),
+        'L': (lambda: L([1]), lambda c, x: c.append(x)),
+        'D': (lambda: D(a=1), lambda c, x: c.__setitem__('s', x)),
+    }
+    marker = re.compile(r'<Recursion on (\w+) with id=(\d+)>')
+    n = 0
+    for name, (mk, link) in makers.items():
+        for shape in ('self', 'via-list', 'via-dict-and-shared'):
+            c = mk()
+            shared = [7, 8]
+            if shape == 'self':
+                link(c, c)
+                root, expect = c, [(type(c).__name__, id(c))]
+            elif shape == 'via-list':
+                inner = [c, shared]
+                link(c, inner)
+                root, expect = [inner, shared], [('list', id(inner))]
+            else:
+                inner = {'c': c, 'sh': shared}
+                link(c, inner)
+                root, expect = c, [(type(c).__name__, id(c))]
+            for width in (79, 1):
+                n += 1
+                desc = {'container': name, 'shape': shape, 'width': width}
+                try:
+                    with warnings.catch_warnings(record=True) as wl:
+                        warnings.simplefilter('always')
+                        with common.time_limit(20):
+                            out = P.pformat(root, width=width)
+                            out2 = P.pformat(root, width=width)
+                except (Exception, common.Timeout) as e:  # noqa
+                    chk.violation('C13.terminates', 'printing a cyclic %s (%s) raised / did not terminate: %r' % (name, shape, e), desc)
+                    continue
+                desc['output'] = out
+                got = [(a, int(b)) for a, b in marker.findall(out)]
+                if got != expect:
+                    chk.violation('C13.unfold', 'cycle through %s (%s): markers %r, expected exactly %r: %r'
+                                  % (name, shape, got, expect, out), desc)
+                if out2 != out:
+                    chk.violation('C13.repeat', 'second print of the cyclic %s differs: %r vs %r' % (name, out, out2), desc)
+                if any('raised an exception' in str(w.message) for w in wl):
+                    chk.violation('C13.unfold', 'a bundled printer failed on a cyclic %s (%s)' % (name, shape), desc)
+                if shape != 'self' and out.replace(' ', '').replace('\n', '').count('7,8') < (2 if shape == 'via-list' else 1):
+                    chk.violation('C13.unfold', 'the shared acyclic list is not printed in full at each occurrence: %r' % (out,), desc)
+                chk.nontrivial(('stdlib-cycle', name, shape, width))
+    chk.cov['evaluations'] += 2 * n
+    chk.stage('stdlib-cycles', prints=2 * n)
 
 
 # ---------------------------------------------------------------------------
